@@ -132,6 +132,21 @@ def _extra_vm_state(run: Any) -> None:
             n.params["set_state_vms_vm2"] = "guirunning"
 
 
+def _image_mark(run: Any) -> None:
+    """The removal mark given for one image (unset_mode_images_image1_vm2) instead of for the vm's images."""
+    for n in run.graph.nodes:
+        if not n.is_flat() and n.params.get("unset_mode_images_vm2") == "fi":
+            del n.params["unset_mode_images_vm2"]
+            n.params["unset_mode_images_image1_vm2"] = "fi"
+
+
+def _abort_mark(run: Any) -> None:
+    """The documented removal mode 'fa' (force if present, abort if absent) instead of 'fi'."""
+    for n in run.graph.nodes:
+        if not n.is_flat() and n.params.get("unset_mode_images_vm2") == "fi":
+            n.params["unset_mode_images_vm2"] = "fa"
+
+
 def c05(tier: str) -> list[dict[str, Any]]:
     m = [M.c05]
     virt = {**DEEP, "linux_virtuser": ["shared"], "windows_virtuser": ["shared"]}
@@ -142,6 +157,8 @@ def c05(tier: str) -> list[dict[str, Any]]:
         plan("G8 removable state with a dependant, one worker excluded by its restrictions", trav.menu("G8"), m, K=1, statuses=["PASS"], pool_fixed={**virt, "connect": ["shared"]}),
         plan("G8b a removable state with a lazily expanded dependant of another worker", trav.menu("G8b"), m, K=1, statuses=["PASS"], pool_fixed=DEEP),
         plan("G3 eager, a node saving a removable image state and a reusable vm state", trav.menu("G3", lazy=False, label="G3-mixed-marks"), m, K=1, statuses=["PASS"], pool_fixed=virt, setup=_extra_vm_state),
+        plan("G7l eager, removal mark on one image, retried dependant", trav.menu("G7l", lazy=False, params={"max_tries": "2"}, label="G7l-image-mark"), m, K=1, statuses=["PASS"], pool_fixed={**virt, "connect": ["shared"]}, setup=_image_mark),
+        plan("G7l eager, removal mode fa, retried dependant", trav.menu("G7l", lazy=False, params={"max_tries": "2"}, label="G7l-fa-mark"), m, K=1, statuses=["PASS"], pool_fixed={**virt, "connect": ["shared"]}, setup=_abort_mark),
         plan("G7 removable state with a retried dependant, two remote workers of one cluster", trav.menu("G7", params={"max_tries": "2"}, label="G7-tries2"), m, K=1, statuses=["PASS"], pool_fixed={**virt, "connect": ["shared"]}),
     ]
     if tier == "thorough":
